@@ -67,6 +67,15 @@ def gen_transfer_schedule(rnd, idn, faults):
     if kind == 'lost':
         c['postFail'] = [False, True, False, False]
     st.append(c)
+    if kind in ('none', 'restart') and rnd.random() < 0.5:
+        # the hand-over at its edge: the source has scraped three times, the destination twice, and the next cycle
+        # runs while the destination's third scrape is under way (or right after the destination restarted)
+        st += [step('scrape', i=1)] * 3 + [step('scrape', i=2)] * 2
+        if kind == 'restart':
+            st.append(step('restart', i=2))
+            kind = 'none'
+        cc = step('cycle', i=2)
+        st += [cc, step('scrape', i=2, on=True)]
     for _ in range(rnd.choice([0, 1, 2])):
         st += [step('scrape', i=1), step('scrape', i=2)]
     if kind == 'shrink':
@@ -204,6 +213,9 @@ def gen_schedule(rnd, idn, faults):
         for i in range(1, MAXN + 1):
             for _ in range(rnd.choice([0, 1, 3, 3, 4])):
                 st.append(step('scrape', i=i))
+        if rnd.random() < 0.3:
+            # the next cycle runs while a scrape round of one shard is under way (asked, not yet answered)
+            st.append(('inflight', rnd.randint(1, MAXN)))
         x = rnd.random()
         if x < 0.15:
             st.append(step('tick'))
@@ -234,6 +246,20 @@ def gen_schedule(rnd, idn, faults):
                 st.append(step('recreate', i=rnd.randint(1, MAXN)))
         elif x < 0.8:
             st.append(step('probe', t=rnd.randint(1, NT)))
+    # resolve the in-flight markers: the marked shard's round brackets the next cycle
+    st2, pend = [], 0
+    for x in st:
+        if isinstance(x, tuple):
+            pend = x[1]
+            continue
+        if x['a'] == 'cycle' and pend:
+            c = dict(x)
+            c['i'] = pend
+            st2 += [c, step('scrape', i=pend, on=True)]
+            pend = 0
+        else:
+            st2.append(x)
+    st = st2
     quiet_from = len(st) + 1
     # the quiet tail: every discovered target probed, then cycles each followed by three scrape rounds on every shard
     for t in range(1, NT + 1):
@@ -450,7 +476,7 @@ def run_loop(prop, tier, scratch, faults, replay=None):
     C.require_ok(ev, 'RebalanceEval (closed-loop cycles)')
     cviol = C.read_ndjson(os.path.join(sd, 'viol.ndjson'))
     # (d) run-level formulas
-    C.write_ndjson(os.path.join(sd, 'runs.ndjson'), [dict(id=r['id'], opts=r['opts'], steps=[dict(a=x['a'], world=x['world']) for x in r['steps']],
+    C.write_ndjson(os.path.join(sd, 'runs.ndjson'), [dict(id=r['id'], opts=r['opts'], steps=[dict(a=x['a'], world=x['world'], real=x['real']) for x in r['steps']],
                                                           quietFrom=r['quietFrom'], expectConverge=r['expectConverge']) for r in (runs[s['id']] for s in scheds)])
     ev2 = C.tlc(sd, 'KvassEval', 'eval2.cfg', cfg_text='', workers=1, timeout=3000, heap='12g')
     C.require_ok(ev2, 'KvassEval')
@@ -505,7 +531,9 @@ def collect(prop, tier, scratch, faults, replay=None):
                                        text='run %d cycle at step %d: %s' % (p['run'], p['step'], json.dumps(v['sig'], sort_keys=True))))
         for v in r['rviol']:
             f = v['sig']['f']
-            if prop == 'C05' and f != 'gap':
+            if prop == 'C05' and f not in ('gap', 'source-dropped-before-hand-over'):
+                continue
+            if prop != 'C05' and f == 'source-dropped-before-hand-over':
                 continue
             violations.append(dict(sig=dict(f=f),
                                    replay=dict(property=prop, schedule=r['scheds'][v['id']], violation=v['sig'],
